@@ -145,7 +145,33 @@ def evaluate(specs, cfl, fixed_h):
     sol3.count = 1
     sol3.dt = sol3._get_timestep()
     got3 = sol3._compute_timestep()
-    return got, got2, got3
+    # history: the same integrator is asked again after the smoothing
+    # lengths changed in place (same particle counts)
+    got4 = None
+    if not fixed_h:
+        specs2 = next_specs(specs)
+        saved = []
+        for pa, s2 in zip(arrays, specs2):
+            h = pa.get('h', only_real_particles=False)
+            saved.append(h.copy())
+            n = len(s2.h)
+            if n:
+                h[:n] = s2.h
+                h[n:] = s2.h[0]
+            pa.update_min_max(['h'])
+        try:
+            got4 = integ.compute_time_step(0.125, cfl)
+        finally:
+            for pa, h0 in zip(arrays, saved):
+                pa.get('h', only_real_particles=False)[:] = h0
+                pa.update_min_max(['h'])
+    return got, got2, got3, got4
+
+
+def next_specs(specs):
+    return [ArrSpec(s.present, s.prof,
+                    tuple(HS[(HS.index(h) + 1) % len(HS)] for h in s.h),
+                    s.ghost) for s in specs]
 
 
 def classify(specs):
@@ -161,7 +187,7 @@ def classify(specs):
 def judge(specs, cfl, fixed_h):
     want, why = reference(specs, cfl)
     try:
-        got, got2, got3 = evaluate(specs, cfl, fixed_h)
+        got, got2, got3, got4 = evaluate(specs, cfl, fixed_h)
     except Exception as e:  # noqa
         return ('exception:%s' % type(e).__name__, repr(e))
 
@@ -184,6 +210,12 @@ def judge(specs, cfl, fixed_h):
         return ('solver-fallback-while-damping', 'Solver._compute_timestep '
                 'during damping gave %r, expected the undamped %r'
                 % (got3, exp2))
+    if not fixed_h:
+        want4, why4 = reference(next_specs(specs), cfl)
+        if not eq(got4, want4):
+            return ('after-h-change:%s' % why4, 'second query on the same '
+                    'integrator after every h moved to the next value of '
+                    '%r gave %r, statement gives %r' % (HS, got4, want4))
     return None
 
 
